@@ -85,6 +85,8 @@ def fresh_until(ex, s, t):
         lo, hi = c + ex.I, c + ex.I + ex.T
         if not any(lo <= p <= hi for p in pongs):
             due.append(hi)
+    # a PONG nobody asked for starts a timer whose PING the client may never see
+    due += [c + ex.I + ex.T for c in getattr(s, 'pongs_unsolicited', []) if c < t]
     return min(due) if due else max(chains) + ex.I + ex.T
 
 
